@@ -29,6 +29,8 @@ type PropConfig struct {
 	DesignRef  string   `json:"design_ref"`
 	Lemmas     []string `json:"lemmas"`
 	JSONSweep  bool     `json:"jsonable_sweep"`
+	Confine    *ConfineConfig `json:"confine"`
+	PathAxioms map[string]int `json:"path_axioms"` // tier -> maximum number of path components
 }
 
 type KnownFinding struct {
@@ -172,6 +174,24 @@ func cmdCheck(args []string) {
 		all = append(all, jo...)
 		cfg.Assumes = append(cfg.Assumes, fmt.Sprintf("jsonable sweep (back end: go/types, structural): %d store sites decided by static type; %d sites pass an interface-typed value whose dynamic type is not decided here (assumed serialisable): %s", len(jo), len(dynSites), strings.Join(firstN(dynSites, 12), "; ")))
 	}
+	if n := cfg.PathAxioms[*tier]; n > 0 {
+		t0 := time.Now()
+		cnt, bad := validatePathAxioms(n)
+		goal := "true"
+		desc := fmt.Sprintf("BOUNDED validation of the assumed path/filepath contracts against the real library: all paths over {a,b,..,.,\"\"} with up to %d components, absolute and relative; %d instances", n, cnt)
+		if len(bad) > 0 {
+			goal = "false"
+			desc += "; " + strings.Join(bad, "; ")
+		}
+		all = append(all, &Obligation{ID: "assumed/path-axioms/bounded", Kind: "bounded", Func: "path/filepath (assumed contracts)", Pos: "contracts/assumed/stdlib.spec", Desc: desc,
+			Prefix: 1, Goal: goal, Script: []string{"(set-logic ALL)"}, Time: time.Since(t0).Seconds()})
+		cfg.Bounded = append(cfg.Bounded, fmt.Sprintf("path/filepath axioms A1..A5: bounded validation against the real library, paths of up to %d components (%d instances, %.1fs); not a proof", n, cnt, time.Since(t0).Seconds()))
+	}
+	if cfg.Confine != nil {
+		co, notes := L.confineSweep(cfg.Confine)
+		all = append(all, co...)
+		cfg.Assumes = append(cfg.Assumes, fmt.Sprintf("confinement sweep (back end: go/ssa, structural): %d path-taking calls of %s inside %s each carry a call-site containment condition; exempt: %s", len(co), strings.Join(cfg.Confine.Callees, ", "), strings.Join(cfg.Confine.Packages, ", "), strings.Join(notes, "; ")))
+	}
 	dischargeAll(pending(all), opt)
 
 	known := loadKnown()
@@ -205,6 +225,13 @@ func cmdCheck(args []string) {
 			covers++
 			if o.Verdict != "unsat" {
 				coverOK++
+			}
+			continue
+		}
+		if o.Kind == "bounded" {
+			// a bounded stand-in: reported, never counted as proved
+			if o.Verdict != "unsat" {
+				failed = append(failed, o)
 			}
 			continue
 		}
